@@ -577,7 +577,7 @@ def check_admission_metrics(rep, fl):
         for s_, cnt in outs:
             es = expand_state(hi, s_, hist=True)
             adm = [v for a, v in es.lits if a == added]
-            failed = any(a[0] == "variant" and a[2] == "Break" and v and any(is_call(c, "try_insert") for c in calls_in(a[1])) for a, v in es.lits)
+            failed = any(a[0] == "variant" and ((a[2] in ("Break", "Err") and v) or (a[2] in ("Continue", "Ok") and v is False)) and any(is_call(c, "try_insert") for c in calls_in(a[1])) for a, v in es.lits)
             want = {"KeyAdd": 1} if (adm == [True] and not failed) else {}
             if failed and adm == [True] and cnt in ({}, {"KeyAdd": 1}):
                 continue
